@@ -36,8 +36,12 @@ theorem sink_never_out_of_bounds (ck : Nat) (toks : List CapyV.ParserKernel.Cls)
 theorem line_col_total (t : List Nat) (off : Nat) (h : off ≤ t.length) :
     (CapyV.LineIndex.lineCol t off).isSome := CapyV.C25.lineCol_total t off h
 
-/-- code generation of defers never hits `expect("block didn't add to defer stack")` -/
-theorem defer_codegen_total (body : CapyV.Defer.Stmts) : (CapyV.Defer.compileProgram body).isSome = true :=
-  CapyV.Defer.compileProgram_isSome body
+/-- code generation of defers never hits `expect("block didn't add to defer stack")` /
+`expect("we just pushed this")` and does not re-enter `run_defers_up_to` without end, for
+every body HIR label resolution accepts (no jump leaves a deferred expression) -/
+theorem defer_codegen_total (body : CapyV.Defer.Stmts)
+    (h : CapyV.Defer.wellScoped body [(0, false)] = true) :
+    (CapyV.Defer.compileProgram body).isSome = true :=
+  CapyV.C03.compile_total body h
 
 end CapyV.C06
